@@ -803,6 +803,12 @@ def behaviour_to_script(b, idx):
             else:
                 like = {"t": "move", "m": m}
             ops.append({"op": "push", "like": like, "expect": dict(expect, res=a[1])})
+        elif k == "pushlist":
+            toks = [chessfmt.move_str(m) if m[0] != 0 else "zz99" for m in a[3]]
+            sep = [" ", "  ", "\t", "\n"][(idx + j) % 4]
+            ops.append({"op": "pushlist", "text": cps(sep.join(toks)), "expect": dict(expect, res=a[1])})
+        elif k == "reset_outcome":
+            ops.append({"op": "reset_outcome", "o": a[1], "expect": expect})
         elif k == "pop":
             ops.append({"op": "pop", "expect": dict(expect, res=a[1])})
         elif k == "set_outcome":
